@@ -17,9 +17,9 @@ fn out_s() -> impl Strategy<Value = OutS> {
 
 pub fn plutus_s() -> impl Strategy<Value = PlutusS> {
     (1u8..=3, 0u8..4, any::<u8>(), 3_000_000u64..50_000_000, 0u64..5_000_000, 0u64..2_000_000_000, 0u8..4, 6_000_000u64..40_000_000, any::<bool>(), any::<bool>(),
-        (any::<bool>(), prop::bool::weighted(0.35), prop::bool::weighted(0.3)))
-        .prop_map(|(version, script_tag, datum, coin, mem, steps, collateral_key, collateral_coin, collateral_return, total_collateral, (redeemer_map, via_reference, empty_sibling_lists))| PlutusS {
-            version, script_tag, datum, coin, mem, steps, collateral_key, collateral_coin, collateral_return, total_collateral, redeemer_map, via_reference, empty_sibling_lists,
+        (any::<bool>(), prop::bool::weighted(0.35), prop::bool::weighted(0.3), prop::bool::weighted(0.3)))
+        .prop_map(|(version, script_tag, datum, coin, mem, steps, collateral_key, collateral_coin, collateral_return, total_collateral, (redeemer_map, via_reference, empty_sibling_lists, second_collateral))| PlutusS {
+            version, script_tag, datum, coin, mem, steps, collateral_key, collateral_coin, collateral_return, total_collateral, redeemer_map, via_reference, empty_sibling_lists, second_collateral,
         })
 }
 
@@ -30,7 +30,8 @@ pub fn spec_for(era: EraK) -> impl Strategy<Value = Spec> {
         prop::collection::vec((0u8..3, 0u8..6, prop_oneof![1i64..1_000_000, -1000i64..-1]), 0..3),
         prop::option::weighted(0.3, any::<u8>()),
         prop::option::weighted(0.6, 0u16..5000),
-        prop::option::weighted(0.3, 0u16..5000),
+        // the lower bound of the validity interval is inclusive: a start exactly at the block's slot (0 back) is valid
+        prop::option::weighted(0.3, prop_oneof![1 => Just(0u16), 4 => 0u16..5000]),
         any::<bool>(),
         prop::collection::vec(0u8..6, 0..2),
         prop::option::weighted(0.4, plutus_s()),
